@@ -15,14 +15,27 @@ namespace nano::verif
 using event_hook_t = void (*)(int kind, const void* object, std::uint64_t a, std::uint64_t b);
 using sched_hook_t = void (*)(int point);
 
-inline std::atomic<event_hook_t> g_event_hook{nullptr};
-inline std::atomic<sched_hook_t> g_sched_hook{nullptr};
+using values_hook_t = void (*)(int kind, const void* object, const double* values, int count);
+
+inline std::atomic<event_hook_t>  g_event_hook{nullptr};
+inline std::atomic<sched_hook_t>  g_sched_hook{nullptr};
+inline std::atomic<values_hook_t> g_values_hook{nullptr};
+inline std::atomic<std::uint64_t> g_rng_seed{0U};    ///< if not zero: seeds the otherwise non-deterministic RNGs
+inline std::atomic<std::uint64_t> g_max_threads{0U}; ///< if not zero: overrides the detected hardware concurrency
 
 inline void event(const int kind, const void* object = nullptr, const std::uint64_t a = 0U, const std::uint64_t b = 0U)
 {
     if (const auto hook = g_event_hook.load(std::memory_order_acquire); hook != nullptr)
     {
         hook(kind, object, a, b);
+    }
+}
+
+inline void event_values(const int kind, const void* object, const double* values, const int count)
+{
+    if (const auto hook = g_values_hook.load(std::memory_order_acquire); hook != nullptr)
+    {
+        hook(kind, object, values, count);
     }
 }
 
@@ -49,7 +62,9 @@ enum : int
     ev_stop,            ///< ~pool_t: stop flag set (under the lock)
     ev_notify_stop,     ///< ~pool_t: notify_all done
     ev_joined,          ///< ~pool_t: all workers joined
-    ev_solver_done = 32 ///< solver_t::done (a = iter_ok, b = converged)
+    ev_solver_done = 32, ///< solver_t::done on entry (object = the state, a = iter_ok, b = converged)
+    ev_solver_exit,      ///< solver_t::done on exit (object = the state, a = returned value)
+    ev_al_outer          ///< augmented lagrangian: outer iteration (object = the inner solution, values = criteria)
 };
 } // namespace nano::verif
 
